@@ -73,6 +73,70 @@ Fixpoint run_history (f : frame) (tr : bool) (ft : option ftype) (ops : args) : 
        end) :: run_history f' tr ft r
   end.
 
+
+(* ---- wider histories (op 1633): see Model/UslpFrame.v fop2 ---- *)
+Definition op2_of (l : list Z) : fop2 :=
+  match l with
+  | 0 :: d => O2Base (OpSetTfdz d)
+  | 1 :: _ => O2Base OpSetFrameLen
+  | 2 :: _ => O2Base OpPack
+  | 3 :: _ => O2Base OpLen
+  | 4 :: r => O2SetIz (opt_bytes r)
+  | 5 :: r => O2SetOcf (opt_bytes r)
+  | 6 :: r => O2SetFecf (opt_bytes r)
+  | 7 :: k :: v :: _ => O2Hdr k v
+  | 8 :: has :: v :: _ => O2VcfCount (opt_z has v)
+  | 9 :: has :: v :: _ => O2SetFhp (opt_z has v)
+  | 10 :: r :: _ => O2SetRules r
+  | 11 :: i :: _ => O2SetIdent i
+  | 12 :: r :: i :: has :: p :: d => O2NewTfdf r i d (opt_z has p)
+  | 13 :: _ => O2Redecode
+  | 14 :: _ => O2Roundtrip
+  | 16 :: d => O2Base (OpSetTfdz d)   (* a bytearray assigned, extended in place, assigned again *)
+  | 17 :: d => O2Base (OpSetTfdz d)   (* the same value assigned twice *)
+  | _ => O2Base OpLen
+  end.
+Definition frame_view (f : frame) : list Z :=
+  0 :: [frame_len_of f; hdr_frame_len f; tfdf_len (ftfdf f)] ++ fhdr_fields (hdr f) ++ tfdf_fields (ftfdf f).
+Fixpoint run_history2 (f : frame) (tr : bool) (ft : option ftype) (ops : args) : args :=
+  match ops with
+  | [] => []
+  | o :: r =>
+      match frame_apply2 f tr ft (op2_of o) with
+      | Err e => [1; err_code e] :: run_history2 f tr ft r
+      | Ok f' =>
+          (match op2_of o with
+           | O2Base OpPack => [res_list (frame_pack f' tr ft)]
+           | O2Roundtrip => match frame_roundtrip f' tr ft with
+                            | Ok g => [0] :: frame_fields g
+                            | Err e => [[1; err_code e]]
+                            end
+           | _ => [frame_view f']
+           end) ++ run_history2 f' tr ft r
+      end
+  end.
+
+(* header objects on their own (op 1631) *)
+Definition hop_of (l : list Z) : hop :=
+  match l with
+  | 0 :: k :: v :: _ => HSet k v
+  | 1 :: has :: v :: _ => HCount (opt_z has v)
+  | 2 :: _ => HPack
+  | 3 :: _ => HLen
+  | _ => HObserve
+  end.
+Fixpoint run_hdr_history (h : fhdr) (ops : args) : args :=
+  match ops with
+  | [] => []
+  | o :: r =>
+      let h' := hdr_apply h (hop_of o) in
+      (match hop_of o with
+       | HPack => res_list (hdr_pack h')
+       | HLen => [0; hdr_len h']
+       | _ => 0 :: fhdr_fields h'
+       end) :: run_hdr_history h' r
+  end.
+
 Definition run_uslp (op : Z) (a : args) : args :=
   match op with
   | 1600 => ret (fun b => [b]) (phdr_pack (phdr_of (lst 0 a)))
@@ -109,6 +173,17 @@ Definition run_uslp (op : Z) (a : args) : args :=
   | 1626 => ret (fun p => [[b2z (p_fixed p); p_len p; b2z (iz_present p); iz_size p;
                             b2z (fecf_present p); fecf_size p]]) (props_of (lst 0 a))
   | 1630 => ret (fun f => run_history f (z2b (int 6 0 a)) (ft_opt (int 6 1 a)) (skipn 7 a))
+              (frame_of a)
+  (* decode from a bytearray that is overwritten afterwards (adapter); same decoder *)
+  | 1627 => ret frame_fields
+              (do p <- props_of (lst 1 a); frame_unpack (lst 0 a) (ft_of (int 1 0 a)) p)
+  (* two frames decoded in a row, both inspected afterwards *)
+  | 1628 => ret (fun r => frame_fields (fst r) ++ frame_fields (snd r))
+              (do p <- props_of (lst 1 a); do x <- frame_unpack (lst 0 a) (ft_of (int 1 0 a)) p;
+               do q <- props_of (lst 3 a); do y <- frame_unpack (lst 2 a) (ft_of (int 3 0 a)) q;
+               Ok (x, y))
+  | 1631 => [0] :: run_hdr_history (fhdr_of (lst 0 a)) (skipn 1 a)
+  | 1633 => ret (fun f => run_history2 f (z2b (int 6 0 a)) (ft_opt (int 6 1 a)) (skipn 7 a))
               (frame_of a)
   (* Spec side (independent oracle) *)
   | 1650 => [[0]; phdr_layout (phdr_of (lst 0 a))]
